@@ -16,4 +16,14 @@ func init() {
 				})},
 			Explain: "Decides the aliasing sentences completely modulo the trusted base: Values()/Keys() of all containers return a slice allocated by the call that is neither rooted in nor retained by any parameter/global (R2a); no exported function retains a caller's slice argument in container memory, a global or its result (R2b); the slice GetSortedValues[Func] sorts is fresh for the CHA join of all Values() implementations and the functions write nothing else (R2c, R1). Not decided: that the output is sorted (contract of slices.Sort, trusted)."}
 	}}
+	properties["C13"] = propDef{run: func(c *Ctx) *PropertyRun {
+		return &PropertyRun{Level: "other", Trusted: trustedBase, Assume: commonAssumptions,
+			Rules: []*RuleResult{c.rule("R2d", ruleR2d)},
+			Explain: "partial"}
+	}}
+	properties["C17"] = propDef{run: func(c *Ctx) *PropertyRun {
+		return &PropertyRun{Level: "other", Trusted: trustedBase, Assume: commonAssumptions,
+			Rules: []*RuleResult{c.rule("R3", ruleR3), c.rule("R4", ruleR4)},
+			Explain: "partial"}
+	}}
 }
